@@ -1,7 +1,7 @@
 """C06 -- consistent hashing is stable, compatible and independent of membership history.
 
 Functions under contract (carbon.hashing): fnv32a (the pure-Python definition), compactHash,
-carbonHash, ConsistentHashRing.{compute_ring_position, get_node, get_nodes, remove_node}.
+carbonHash, ConsistentHashRing.{compute_ring_position, get_node, get_nodes, add_node, remove_node}.
 Spec functions are pinned HERE and in /verif/spec/ring_spec.py (written from the published
 algorithm, not from carbon): FNV-1a offset basis 0x811c9dc5, prime 0x01000193, position =
 (h >> 16) xor (h & 0xffff) resp. int(md5hex[:4], 16).
@@ -9,8 +9,9 @@ algorithm, not from carbon): FNV-1a offset basis 0x811c9dc5, prime 0x01000193, p
 s1 (minimal disruption) is a lemma over the contracts of get_nodes (preference order = nodes in
 order of their first entry along the cyclic walk) and add/remove (old entries unchanged).
 s2 (compatibility): the hash functions and the lookup are proved equal to the pinned spec; ring
-construction (add_node) is compared with the spec natively over destination lists and ALL 65536
-positions (bounded).  s3 (history independence) is refuted when replica positions collide
+construction (add_node) is under contract (replica keys, first free position at or after the hash,
+sorted insertion, I_ring re-established, only the new node's entries added) and additionally
+compared with the spec natively over destination lists in several orders and ALL 65536 positions.  s3 (history independence) is refuted when replica positions collide
 (known finding D10, native witness); without collisions entries are a function of the node set.
 """
 import z3
@@ -215,6 +216,209 @@ def u_remove_node(ctx, index):
   ctx.check('C06/remove_node/node_set', z3.ForAll([n], z3.Select(h.nodes.mem, n) == z3.And(z3.Select(nodes0.mem, n), n != xz)))
 
 
+RK_FNV = z3.Function('replica_key_fnv', z3.IntSort(), Atom, Atom)       # "%d-%s" % (i, instance)
+RK_CH = z3.Function('replica_key_carbon', Node, z3.IntSort(), Atom)       # "%s:%d" % (node, i)
+
+
+def u_add_node(ctx, index):
+  """add_node(x) for a node that is not configured yet (the routers refuse duplicates) preserves
+  I_ring and only inserts entries of x:
+
+     ring' is strictly sorted by position                       (what get_node's bisect relies on)
+     every old entry is still there, in the same relative order (ghost dst: old index -> new index)
+     every other entry of ring' belongs to x                    (ghost src: new index -> old index | -1)
+     |ring'| = |ring| + replica_count, nodes' = nodes + {x}, lengths updated
+     x has (at least) two entries, every old node keeps its two witnesses  (replica_count >= 2)
+     each new entry sits at the first free position at or after the hash position of its replica
+     key (bump by one while occupied), the keys being "<i>-<instance>" (fnv1a_ch) / "<node>:<i>"
+  Loop 0 (replicas) carries the ghost maps; loop 1 (the collision probe) leaves the ring alone."""
+  h = RM.RingHarness(ctx, index)
+  h.assume_I()
+  ip = h.ip
+  ip.label_prefix = 'C06/'
+  I = z3.IntSort()
+  ctx.assume(h.replica_count >= 2)
+  x = TNode.fresh(ctx, 'x')
+  xz = TNode.enc(ip, x)
+  ctx.assume(z3.Not(z3.Select(h.nodes.mem, xz)))
+  R0 = h.ring.term
+  L0 = z3.Length(R0)
+  nodes0 = h.nodes.snapshot()
+  st = {}
+  Q = CHR + '.add_node'
+  j_, a_, b_, q_ = z3.Int('j?'), z3.Int('a?'), z3.Int('b?'), z3.Int('q?')
+  n_ = z3.Const('n?', Node)
+
+  def fmt(ip2, f, args):
+    if f == '%d-%s' and len(args) == 2:
+      return RK_FNV(TInt.enc(ip2, args[0]), TAtom.enc(ip2, args[1]))
+    if f == '%s:%d' and len(args) == 2:
+      return RK_CH(TNode.enc(ip2, args[0]), TInt.enc(ip2, args[1]))
+    raise EngineError("replica key format %r" % (f,))
+  ip.ext['str_format'] = fmt
+  ip.ext[('getitem', Entry.name())] = lambda ip2, o, i: (E_POS(o) if i == 0 else TNode.dec(E_NODE(o)))
+
+  def insort(ip2, args, kw):
+    """A-LIB: bisect.insort(a, e) on a list strictly sorted by position with e's position not in
+    it: e is inserted at the index that keeps the list sorted (tuples then compare by position)."""
+    ring, entry = args
+    if not (isinstance(ring, SymSeq) and isinstance(entry, tuple) and len(entry) == 2):
+      raise EngineError("insort(%r, %r)" % (ring, entry))
+    R = ring.term
+    n = z3.Length(R)
+    p = TInt.enc(ip2, entry[0])
+    e = TEntry.enc(ip2, entry)
+    ctx.check('C06/add_node/insort/position_is_free', z3.ForAll([j_], z3.Implies(z3.And(0 <= j_, j_ < n), E_POS(R[j_]) != p)))
+    i = ctx.fresh(I, 'insert_at')
+    ctx.assume(z3.And(0 <= i, i <= n))
+    ctx.assume(z3.ForAll([j_], z3.Implies(z3.And(0 <= j_, j_ < i), E_POS(R[j_]) < p)))
+    ctx.assume(z3.ForAll([j_], z3.Implies(z3.And(i <= j_, j_ < n), E_POS(R[j_]) > p)))
+    new = ctx.fresh(z3.SeqSort(Entry), 'ring')
+    ctx.assume(z3.Length(new) == n + 1)
+    ctx.assume(new[i] == e)
+    ctx.assume(z3.ForAll([j_], z3.Implies(z3.And(0 <= j_, j_ < i), new[j_] == R[j_])))
+    ctx.assume(z3.ForAll([j_], z3.Implies(z3.And(i < j_, j_ <= n), new[j_] == R[j_ - 1])))
+    # (library contract: inserting into a sorted list keeps it sorted; strictly, since the position
+    # was checked to be free.  The pointwise definition above implies it; stating it spares the
+    # solver a five-way case split over shifted indices)
+    ctx.assume(z3.ForAll([a_, b_], z3.Implies(z3.And(0 <= a_, a_ < b_, b_ <= n), E_POS(new[a_]) < E_POS(new[b_]))))
+    ring.set_term(ip2, new)
+    st['ins'] = (i, p, e, R)
+    return None
+  ip.module_bindings.setdefault(H, {})
+  ip.env(H).bindings['bisect'] = Namespace('bisect', {'insort': Builtin('insort', insort),
+                                                       'bisect_left': Builtin('bisect_left', RM.Bisect.bisect_left)})
+
+  # ---- loop 0: for i in range(self.replica_count) ----------------------------------------------
+  def ghost0(fr):
+    G = fr.ghost
+    G['dst'] = z3.K(I, z3.IntVal(0))
+    dst0 = ctx.fresh(z3.ArraySort(I, I), 'dst')
+    src0 = ctx.fresh(z3.ArraySort(I, I), 'src')
+    ctx.assume(z3.ForAll([j_], z3.Select(dst0, j_) == j_))
+    ctx.assume(z3.ForAll([j_], z3.Select(src0, j_) == j_))
+    G['dst'], G['src'] = dst0, src0
+    G['w1'], G['w2'] = z3.IntVal(-1), z3.IntVal(-1)
+
+  def inv0(fr):
+    G = fr.ghost
+    k = fr.loop_k[0]
+    R = h.ring.term
+    L = z3.Length(R)
+    dst, src, w1, w2 = G['dst'], G['src'], G['w1'], G['w2']
+    return [
+      ('length', L == L0 + k),
+      ('sorted_unique', z3.ForAll([a_, b_], z3.Implies(z3.And(0 <= a_, a_ < b_, b_ < L), E_POS(R[a_]) < E_POS(R[b_])))),
+      ('old_entries_kept', z3.ForAll([j_], z3.Implies(z3.And(0 <= j_, j_ < L0),
+                                                      z3.And(0 <= z3.Select(dst, j_), z3.Select(dst, j_) < L,
+                                                             R[z3.Select(dst, j_)] == R0[j_])))),
+      ('old_order_kept', z3.ForAll([a_, b_], z3.Implies(z3.And(0 <= a_, a_ < b_, b_ < L0), z3.Select(dst, a_) < z3.Select(dst, b_)))),
+      ('other_entries_are_the_new_node_s', z3.ForAll([a_], z3.Implies(
+        z3.And(0 <= a_, a_ < L),
+        z3.Or(z3.And(z3.Select(src, a_) == -1, E_NODE(R[a_]) == xz),
+              z3.And(0 <= z3.Select(src, a_), z3.Select(src, a_) < L0, R[a_] == R0[z3.Select(src, a_)]))))),
+      ('first_new_entry', z3.Implies(k >= 1, z3.And(0 <= w1, w1 < L, E_NODE(R[w1]) == xz))),
+      ('second_new_entry', z3.Implies(k >= 2, z3.And(0 <= w2, w2 < L, E_NODE(R[w2]) == xz, w1 != w2))),
+      ('node_set', z3.And(z3.ForAll([n_], z3.Select(h.nodes.mem, n_) == z3.Or(z3.Select(nodes0.mem, n_), n_ == xz)),
+                          h.nodes.card == nodes0.card + 1, h.obj.fields['nodes_len'] == nodes0.card + 1)),
+    ]
+
+  def havoc0(fr):
+    G = fr.ghost
+    h.ring.havoc(ip, 'ring')
+    G['dst'] = ctx.fresh(z3.ArraySort(I, I), 'dst')
+    G['src'] = ctx.fresh(z3.ArraySort(I, I), 'src')
+    G['w1'], G['w2'] = ctx.fresh(I, 'w1'), ctx.fresh(I, 'w2')
+    st['k_head'] = fr.loop_k[0]
+    st['G'] = dict(G)
+
+  def step0(fr):
+    # ghost update for one insertion at index i
+    G = fr.ghost
+    (i, p, e, Rb) = st['ins']
+    k1 = fr.loop_k[0]          # already advanced
+    dst, src = G['dst'], G['src']
+    nd = ctx.fresh(z3.ArraySort(I, I), 'dst')
+    ns = ctx.fresh(z3.ArraySort(I, I), 'src')
+    ctx.assume(z3.ForAll([j_], z3.Select(nd, j_) == z3.Select(dst, j_) + z3.If(z3.Select(dst, j_) >= i, 1, 0)))
+    ctx.assume(z3.ForAll([a_], z3.Select(ns, a_) == z3.If(a_ < i, z3.Select(src, a_), z3.If(a_ == i, -1, z3.Select(src, a_ - 1)))))
+    w1, w2 = G['w1'], G['w2']
+    sh = lambda w: w + z3.If(w >= i, 1, 0)
+    G['w1'] = z3.If(k1 == 1, i, sh(w1))
+    G['w2'] = z3.If(k1 == 2, i, sh(w2))
+    G['dst'], G['src'] = nd, ns
+    ctx.cover('add_node/replica_inserted')
+    ctx.check('C06/add_node/entry_is_position_and_node', E_NODE(e) == xz)
+    # compatibility: the position is the first free one at or after the hash of the replica key
+    p0 = st['p0']
+    ctx.check('C06/add_node/position_at_or_after_hash', p >= p0)
+    ctx.check('C06/add_node/replica_key', st['key_ok'])
+  ip.loops[(Q, 0)] = LoopSpec('for i in range(self.replica_count)', inv0, havoc0, ghost_pre=ghost0, ghost_step=step0)
+
+  # ---- loop 1: while position in [r[0] for r in self.ring] --------------------------------------
+  def ghost1(fr):
+    G = fr.ghost
+    R = h.ring.term
+    L = z3.Length(R)
+    RW = z3.Function(ctx.fresh_name('index_of_position'), I, I)
+    # positions are unique (sorted_unique), so "the index holding position q" is a function
+    ctx.assume(z3.ForAll([j_], z3.Implies(z3.And(0 <= j_, j_ < L), RW(E_POS(R[j_])) == j_)))
+    G['RW'] = RW
+    G['ring_at_probe'] = R
+    st['p0'] = fr['position']
+    i = fr['i']
+    key = fr['replica_key']
+    want = z3.If(h.hash_type == ip.atom('fnv1a_ch'), RK_FNV(TInt.enc(ip, i), RM.N_INSTANCE(xz)), RK_CH(xz, TInt.enc(ip, i)))
+    st['key_ok'] = z3.And(TAtom.enc(ip, key) == want, st['p0'] == POS(want))
+
+  def inv1(fr):
+    G = fr.ghost
+    R = G['ring_at_probe']
+    L = z3.Length(R)
+    RW = G['RW']
+    pos = TInt.enc(ip, fr['position'])
+    return [
+      ('ring_untouched', h.ring.term == R),
+      ('probe_moves_up', pos >= st['p0']),
+      ('all_between_are_taken', z3.ForAll([q_], z3.Implies(z3.And(st['p0'] <= q_, q_ < pos),
+                                                         z3.And(0 <= RW(q_), RW(q_) < L, E_POS(R[RW(q_)]) == q_)))),
+    ]
+
+  def havoc1(fr):
+    fr.locals['position'] = ctx.fresh(I, 'position')
+  ip.loops[(Q, 1)] = LoopSpec('while position in [r[0] for r in self.ring]', inv1, havoc1, ghost_pre=ghost1,
+                              locals_modified=['position'])
+
+  ip.run(Q, [x], self_obj=h.obj)
+  ctx.cover('add_node/returns')
+  ring1 = h.obj.fields['ring']
+  R = ring1.term
+  L = z3.Length(R)
+  # the invariant of loop 0 at exit (k == replica_count) is on the path condition
+  G = st['G']
+  dst, src, w1, w2 = G['dst'], G['src'], G['w1'], G['w2']
+  # frame: what minimal disruption (s1) needs -- old entries all kept in order, everything else is x's
+  ctx.check('C06/add_node/old_entries_kept', z3.ForAll([j_], z3.Implies(
+    z3.And(0 <= j_, j_ < L0), z3.And(0 <= z3.Select(dst, j_), z3.Select(dst, j_) < L, R[z3.Select(dst, j_)] == R0[j_]))))
+  ctx.check('C06/add_node/old_order_kept', z3.ForAll([a_, b_], z3.Implies(z3.And(0 <= a_, a_ < b_, b_ < L0),
+                                                                         z3.Select(dst, a_) < z3.Select(dst, b_))))
+  ctx.check('C06/add_node/only_entries_of_the_new_node_added', z3.ForAll([a_], z3.Implies(
+    z3.And(0 <= a_, a_ < L),
+    z3.Or(E_NODE(R[a_]) == xz, z3.And(0 <= z3.Select(src, a_), z3.Select(src, a_) < L0, R[a_] == R0[z3.Select(src, a_)])))))
+  # I_ring re-established
+  ctx.check('C06/add_node/I_ring/entries_are_nodes', z3.ForAll([a_], z3.Implies(z3.And(0 <= a_, a_ < L),
+                                                                                z3.Select(h.nodes.mem, E_NODE(R[a_])))))
+  e1n = z3.If(n_ == xz, w1, z3.Select(dst, h.e1(n_)))
+  e2n = z3.If(n_ == xz, w2, z3.Select(dst, h.e2(n_)))
+  ctx.check('C06/add_node/I_ring/two_entries_each', z3.ForAll([n_], z3.Implies(
+    z3.Select(h.nodes.mem, n_),
+    z3.And(0 <= e1n, e1n < L, 0 <= e2n, e2n < L, e1n != e2n, E_NODE(R[e1n]) == n_, E_NODE(R[e2n]) == n_))))
+  ctx.check('C06/add_node/lengths_updated', z3.And(h.obj.fields['ring_len'] == L, h.obj.fields['nodes_len'] == h.nodes.card))
+  ctx.check('C06/add_node/I_ring/sorted_unique', z3.ForAll([a_, b_], z3.Implies(z3.And(0 <= a_, a_ < b_, b_ < L), E_POS(R[a_]) < E_POS(R[b_]))))
+  ctx.check('C06/add_node/length', L == L0 + h.replica_count)
+  ctx.check('C06/add_node/node_set', z3.ForAll([n_], z3.Select(h.nodes.mem, n_) == z3.Or(z3.Select(nodes0.mem, n_), n_ == xz)))
+
+
 def u_minimal_disruption(ctx, index):
   """Lemma s1 over the contracts.  E = old entries (positions unique), E' = E plus entries of a
   new node x at fresh positions (add_node's frame: old entries unchanged) -- or E minus x's
@@ -245,6 +449,21 @@ def u_minimal_disruption(ctx, index):
             z3.Implies(before(ma, mb), z3.And(is_first(ma, a, inE2), is_first(mb, b, inE2), before(ma, mb))))
 
 
+def replay_ring(model, ob):
+  """failing input for a refuted ring-construction clause: the real ring against the pinned spec"""
+  import json
+  from pyvc.runner import run_native
+  rc, out, err = run_native('replay/c06_ring.py', ['--tier', 'quick'], timeout=900)
+  for line in out.splitlines():
+    if line.startswith('BOUNDED-RESULT '):
+      r = json.loads(line[len('BOUNDED-RESULT '):])
+      fl = [f for f in r['failures'] if f['id'] != 'c06-history-collision-bump']
+      if fl:
+        return {'native_confirms': True, 'input': fl[0], 'searched': r['evaluations']}
+      return {'native_confirms': False, 'searched': r['evaluations']}
+  return {'replay_error': (err or out)[-600:]}
+
+
 def build():
   def kf_witness():
     import json
@@ -260,19 +479,23 @@ def build():
     Unit('hashing.carbonHash', u_carbon_hash, [H + ':carbonHash', H + ':compactHash'], expect_covers=['carbonHash/returns']),
     Unit('hashing.ConsistentHashRing.get_node', u_get_node, [CHR + '.get_node'], expect_covers=['get_node/returns']),
     Unit('hashing.ConsistentHashRing.get_nodes[order]', u_get_nodes_order, [CHR + '.get_nodes'], expect_covers=['get_nodes_order/returns']),
-    Unit('hashing.ConsistentHashRing.remove_node', u_remove_node, [CHR + '.remove_node'], expect_covers=['remove_node/returns']),
+    Unit('hashing.ConsistentHashRing.add_node', u_add_node, [CHR + '.add_node'], expect_covers=['add_node/returns', 'add_node/replica_inserted'],
+         replay=replay_ring, native_clauses=['C06/add_node/I_ring/sorted_unique']),
+    Unit('hashing.ConsistentHashRing.remove_node', u_remove_node, [CHR + '.remove_node'], expect_covers=['remove_node/returns'],
+         replay=replay_ring, native_clauses=['C06/remove_node/no_entry_of_the_removed_node']),
     Unit('C06/lemma/minimal_disruption', u_minimal_disruption, [], expect_covers=['lemma/minimal_disruption']),
   ]
   return Property(
     'C06', units,
     bounded=[Bounded('C06/ring/compat_disruption_history', 'replay/c06_ring.py', ['--tier', 'quick'], ['--tier', 'thorough'],
                      'real ConsistentHashRing vs /verif/spec/ring_spec.py: destination lists of 1,2,3,5 (quick) / 1..8 (thorough) nodes incl. several instances per server, both hash types, ring contents and the owner of ALL 65536 positions, FNV known-answer vectors, preference lists; one-node add/remove at every 257th (quick) / 16th (thorough) position; random add/remove histories of 2 (quick) / 5 (thorough) operations against a fresh ring',
-                     "add_node's ring construction (bump-by-one, insort) is not yet under a discharged contract; md5 / UTF-8 are library functions; history independence is a whole-history statement")],
+                     "the ring as a whole (all replicas of all nodes through __init__) against the published algorithm, and history independence, are whole-history statements; md5 / UTF-8 are library functions; add_node's per-call contract is discharged")],
     findings_witness={'c06-history-collision-bump': kf_witness},
     trusted_base=['A-ENGINE', 'A-SMT', 'A-LIB(bisect_left, comprehension filter, md5, utf-8)'],
     assumptions=[
       "bytes are sequences of 32-bit vectors <= 255; Python ints produced by fnv32a are 32-bit vectors ((h * prime) % 2**32 is 32-bit multiplication); int() of such a vector is the identity",
       "md5().hexdigest(), str.encode('utf-8'), int(s, 16) and hex slicing are uninterpreted: what is proved is that carbonHash composes them as the pinned spec does",
       "a list comprehension with a condition over a list is an order-preserving filter (A-LIB)",
-      "add_node / __init__ are compared with the pinned specification only natively (bounded clause); I_ring is assumed for get_node / get_nodes / remove_node",
+      "I_ring is assumed at the entry of get_node / get_nodes / add_node / remove_node and re-established by add_node / remove_node (it holds trivially for the empty ring __init__ starts from; __init__'s loop over add_node is the induction); add_node's precondition: the node is not configured yet (the routers refuse duplicates) and replica_count >= 2",
+      "A-LIB: bisect.insort on a list strictly sorted by position, with the new position not in it, inserts at the index that keeps it sorted",
     ])
